@@ -5,13 +5,22 @@ namespace TF.Model.PolyD
 variable {K : Type} [Field K] (root : Nat → Option K)
 local notation "FK" => FieldOps.ofField K root
 
-theorem truncateUsize_eq (p : List K) (k : Nat) (h : k + 1 < 2 ^ 64) :
+/-- after the repair F13: the saturating count takes as much as the mathematical `k + 1` for every polynomial with fewer
+    than `2^64` coefficients (every one that fits in memory), for EVERY `k` -/
+theorem truncateUsize_eq (p : List K) (k : Nat) (h : (revNorm FK p).length < 2 ^ 64) :
     truncateUsize FK p k = truncate FK p k := by
   unfold truncateUsize truncate USIZE_MOD
+  by_cases hk : k + 1 ≤ 2 ^ 64 - 1
+  · rw [Nat.min_eq_left hk]
+  · rw [Nat.min_eq_right (by omega), List.take_of_length_le (by omega), List.take_of_length_le (by omega)]
+
+theorem truncateBeforeF13_eq (p : List K) (k : Nat) (h : k + 1 < 2 ^ 64) :
+    truncateBeforeF13 FK p k = truncate FK p k := by
+  unfold truncateBeforeF13 truncate USIZE_MOD
   rw [Nat.mod_eq_of_lt h]
 
-theorem truncateUsize_max (p : List K) : truncateUsize FK p (2 ^ 64 - 1) = [] := by
-  unfold truncateUsize USIZE_MOD
+theorem truncateBeforeF13_max (p : List K) : truncateBeforeF13 FK p (2 ^ 64 - 1) = [] := by
+  unfold truncateBeforeF13 USIZE_MOD
   have : (2 ^ 64 - 1 + 1) % 2 ^ 64 = 0 := by norm_num
   rw [this]; simp
 
